@@ -71,7 +71,11 @@ func ProcessDeposits(ctx context.Context, spec *common.Spec, epc *common.EpochsC
 	if err != nil {
 		return err
 	}
-	// state deposit count and deposit index are trusted not to underflow
+	// eth1_data is whatever a voting majority adopted: its deposit_count may be below the deposit index.
+	// The spec's uint64 subtraction then fails (no block is valid on such a state); do not wrap around.
+	if eth1Data.DepositCount < depIndex {
+		return errors.New("eth1 data deposit count is lower than the state's deposit index")
+	}
 	expectedInputCount := uint64(eth1Data.DepositCount - depIndex)
 	if expectedInputCount > uint64(spec.MAX_DEPOSITS) {
 		expectedInputCount = uint64(spec.MAX_DEPOSITS)
